@@ -737,9 +737,10 @@ class MultiCrashWalk(_CrashBase):
 class DirNameCrash(_CrashBase):
     title = ("the same crash/recovery oracle for databases whose directory name contains characters that are "
              "ordinary in a path but special to pattern matching")
-    scope = ("directory names {'db', 'd b', 'd[b]', 'd[!x]y', 'd*b', 'd?b'} x histories of <=2 ops (quick: the "
-             "9 histories set / set,set / set,del on one key with values {b'p', b'qrs'}) with every crash point and "
-             "the nested recovery closure as in DirDBMCrash")
+    scope = ("directory names {'db', 'd b', 'd[b]', 'd[!x]y', 'd*b', 'd?b'} x histories on one key (quick: the "
+             "5 histories set / set,replace (both value orders) / set,del / set,reopen with values {b'p', b'qrs'}; "
+             "thorough: all histories of <=3 ops over set {b'', b'p', b'qrs'} / del / reopen) with every crash point "
+             "and the nested recovery closure as in DirDBMCrash")
     functions = ["DirDBM.__init__", "DirDBM.__setitem__", "DirDBM.__delitem__", "DirDBM.keys"]
     KEYS = (b"a",)
     NAMES = ("db", "d b", "d[b]", "d[!x]y", "d*b", "d?b")
